@@ -30,8 +30,9 @@ LEVEL_TEXT = ("Lean: for EVERY integer n != 1, from_superscript(superscript(n)) 
               "In every state reachable from a canonical base state and for every unit whose prefix can be pushed into its first factor, "
               "the expression the parser rebuilds from the terms unit_str renders (resolve, raise, multiply left to right, divide by One) "
               "evaluates - after ANY further history - to the very same object (terms_denote, rendered_terms_are_the_unit, via the C02 "
-              "canonical-form theory); instantiated at the shipped registries for every shipped unit (shipped_units_render_to_themselves, "
-              "with init_base_factors / init_terms_ok by decide +kernel). The a/b vs negative exponent, * vs juxtaposition and ordering "
+              "canonical-form theory); `every factor is a base unit' is itself an invariant of every history (run_baseInv), so the statement "
+              "holds for every unit of every state reachable from the imported library, whatever history created it "
+              "(reachable_units_render_to_themselves, with init_base_factors by decide +kernel). The a/b vs negative exponent, * vs juxtaposition and ordering "
               "spellings are C02's group laws. Per run on regenerated data: every registered symbol is exactly one SYMBOL token "
               "(symbols_lex), a kernel-evaluated build/str/lex/LR-parse/transform round trip over a family (family_round_trip, a test), "
               "and the model's complete collision table (all ~5000 prefix x symbol pairs, compiled driver) equals the real "
@@ -46,7 +47,9 @@ TECHNIQUE = "Lean 4 theorems (superscript round trip for every integer; the form
 
 THEOREMS = [
     "Measured.C13.superscript_round_trip", "Measured.C13.caret_round_trip", "Measured.C13.intOfChars_repr",
-    "Measured.terms_denote", "Measured.C13.rendered_terms_are_the_unit",
+    "Measured.terms_denote", "Measured.C13.rendered_terms_are_the_unit", "Measured.run_baseInv",
+    "Measured.C13.rendered_terms_are_the_unit_reachable", "Measured.Obligations.init_baseInv",
+    "Measured.Obligations.reachable_units_render_to_themselves",
     "Measured.C02.div_eq_mul_inv", "Measured.C02.mul_comm", "Measured.C02.eval_canonical",
     "Measured.Obligations.symbols_lex", "Measured.Obligations.init_base_factors", "Measured.Obligations.init_terms_ok",
     "Measured.Obligations.shipped_units_render_to_themselves", "Measured.Obligations.family_round_trip",
